@@ -147,14 +147,21 @@ def version (rel : RNode) : Except Unit (Option (VC × Version)) :=
           | some ver => .ok (some (k, ver))
     | none => .ok none
 
-/-- `Relation::architectures()` (relations.rs:1416-1427): the IDENT tokens of the first
-    ARCHITECTURES child (a `!` negation is dropped, as in the Rust code) -/
+/-- one step of the `filter_map` closure of `Relation::architectures()` (after fix f607859):
+    state = (`negated`, names so far). A NOT token sets the flag, the next IDENT consumes it
+    (`std::mem::take`) and is returned as `"!name"` -/
+def archStep (st : Bool × List Str) (c : RNode) : Bool × List Str :=
+  match c with
+  | .tok k t =>
+    if k = .NOT then (true, st.2)
+    else if k = .IDENT then (false, st.2 ++ [if st.1 then '!' :: t else t])
+    else st
+  | .node _ _ => st
+
+/-- `Relation::architectures()` (relations.rs:1433-1456): the IDENT tokens of the first
+    ARCHITECTURES child, a negated one with its `!` -/
 def architectures (rel : RNode) : Option (List Str) :=
-  (firstChildNode .ARCHITECTURES rel).map fun a =>
-    a.children.filterMap fun c =>
-      match c with
-      | .tok k t => if k = .IDENT then some t else none
-      | .node _ _ => none
+  (firstChildNode .ARCHITECTURES rel).map fun a => (a.children.foldl archStep (false, [])).2
 
 /-- `BuildProfile` (src/relations.rs:6-13) -/
 inductive BuildProfile
